@@ -239,15 +239,21 @@ class ElementList(MutableSequence):
         :type child: :class:`Element <hl7apy.core.Element>`
         :param child: an instance of an :class:`Element <hl7apy.core.Element>` subclass
         """
-        if self._can_add_child(child):
-            try:
-                if by_name_index == -1:
-                    self.indexes[child.name].append(child)
-                else:
-                    self.indexes[child.name].insert(by_name_index, child)
-            except KeyError:
-                self.indexes[child.name] = [child]
-            self.list.insert(index, child)
+        if child.parent != self.element and child.traversal_parent != self.element:
+            # setting the parent makes the element validate and append the child (see Element._set_parent):
+            # take it back from the end of the list and put it at the requested position
+            child.parent = self.element
+            self.remove(child)
+        elif not self._can_add_child(child):
+            return
+        try:
+            if by_name_index == -1:
+                self.indexes[child.name].append(child)
+            else:
+                self.indexes[child.name].insert(by_name_index, child)
+        except KeyError:
+            self.indexes[child.name] = [child]
+        self.list.insert(index, child)
 
     def append(self, child):
         """
